@@ -50,6 +50,10 @@ type Storage struct {
 	// Key is StorageKey{contract_address, contract_name} and value is contract composite value.
 	contractUpdates *orderedmap.OrderedMap[interpreter.StorageKey, *interpreter.CompositeValue]
 
+	// replacedContractValues are pending contract values which were replaced
+	// by another contract update in the same execution, before they got written.
+	replacedContractValues []*interpreter.CompositeValue
+
 	Ledger atree.Ledger
 
 	memoryGauge common.MemoryGauge
@@ -184,6 +188,17 @@ func (s *Storage) recordContractUpdate(
 	if s.contractUpdates == nil {
 		s.contractUpdates = &orderedmap.OrderedMap[interpreter.StorageKey, *interpreter.CompositeValue]{}
 	}
+
+	// If a pending contract value is replaced (e.g. a contract is added and then removed
+	// in the same transaction), the replaced value was never written to the contract storage map,
+	// so its slabs would be left unreferenced. Remember it, so it gets removed on commit.
+	if previousValue, ok := s.contractUpdates.Get(key); ok &&
+		previousValue != nil &&
+		previousValue != contractValue {
+
+		s.replacedContractValues = append(s.replacedContractValues, previousValue)
+	}
+
 	s.contractUpdates.Set(key, contractValue)
 }
 
@@ -217,6 +232,15 @@ func (s *Storage) commitContractUpdates(context interpreter.ValueTransferContext
 	if s.contractUpdates == nil {
 		return
 	}
+
+	for _, replacedValue := range s.replacedContractValues {
+		replacedValue.DeepRemove(context, true)
+		interpreter.RemoveReferencedSlab(
+			context,
+			atree.SlabIDStorable(replacedValue.SlabID()),
+		)
+	}
+	s.replacedContractValues = nil
 
 	for pair := s.contractUpdates.Oldest(); pair != nil; pair = pair.Next() {
 		s.writeContractUpdate(context, pair.Key, pair.Value)
